@@ -95,7 +95,10 @@ class Layout:
             out += lines
             out += post_lines
             if post_lines and style == "alt":
-                out.append("")  # close the alt block
+                if self.plain or rng.random() < 0.5:
+                    out.append("")  # close the alt block (any non-comment line or another doc block closes it too)
+                else:
+                    self.features.add("alt_block_closed_by_next_line")
             if s.kind == "open":
                 depth += 1
             i += 2 if joined else 1
